@@ -509,7 +509,7 @@ def gen(rng, tier):
 def nontrivial(s, t, v):
     k = s["kind"]
     if k == "strs":
-        szs = [r.get("sz") for r in t.get("rs", [])]
+        szs = [r.split("\t", 1)[0] for r in t.get("rs", [])]
         return any(x == "R" for x in szs) and any(x not in ("R", None) for x in szs)
     if k == "cgroup":
         return len(t.get("paths", [])) >= 2
@@ -538,7 +538,7 @@ def bucket(s, t, v):
 def extra_coverage(results):
     n = sum(len(s["ss"]) for s, t, v in results if s["kind"] == "strs")
     inexact = sum(v.get("inexact_domain", 0) for s, t, v in results if s["kind"] == "strs")
-    acc = sum(1 for s, t, v in results for r in t.get("rs", []) if r.get("sz") not in ("R", None))
+    acc = sum(1 for s, t, v in results for r in t.get("rs", []) if r.split("\t", 1)[0] != "R")
     return {"strings": n, "sizes_accepted": acc, "sizes_outside_exact_domain": inexact,
             "string_parser_evaluations": n * 17}
 
